@@ -4,10 +4,14 @@ usage: pin.py <prop> <finding-id> <what> [op-regex]   -- never run by checks."""
 import json,glob,sys,re
 prop,fid,what=sys.argv[1:4]
 rx=re.compile(sys.argv[4]) if len(sys.argv)>4 else None
+nrx=re.compile(sys.argv[5]) if len(sys.argv)>5 else None   # optional: regex the note must match
+nnrx=re.compile(sys.argv[6]) if len(sys.argv)>6 else None  # optional: regex the note must NOT match
 cases=[]
 for f in sorted(glob.glob('replays/%s-*.json'%prop)):
     c=json.load(open(f))
     if rx and not rx.search(c['op']): continue
+    if nrx and not nrx.search(c.get('note','')): continue
+    if nnrx and nnrx.search(c.get('note','')): continue
     key=c['op']+'|'+','.join(c.get('args') or [])+'|'+c.get('mode','')+'|'+c.get('default_rounding_mode','')
     cases.append((key,c['got']))
 cases=sorted(set(cases))
